@@ -305,9 +305,10 @@ class Ctx:
         refusing it).  The outcome is stored in the evidence (notes.binding_demo)."""
         import random
         orig = open(dst).read().splitlines()
-        cut = min(len(orig), 3000)
-        for i in range(cut, 200, -1):
-            if i < len(orig):
+        # whole runs only (a run starts with a "world" event): the judgements at the end of a run must be in
+        cut = len(orig)
+        if len(orig) > 3000:
+            for i in range(3000, 200, -1):
                 try:
                     if json.loads(orig[i]).get("op") == "world":
                         cut = i
